@@ -90,8 +90,16 @@ def parse_column_names(column_names_raw: Sequence[Union[str, None]]) -> List[str
     Strips column names. 
     """
     return [
-        c.strip() for c in itertools.takewhile(lambda x: not _is_cell_blank(x), column_names_raw)
+        _header_text(c, "column name")
+        for c in itertools.takewhile(lambda x: not _is_cell_blank(x), column_names_raw)
     ]
+
+
+def _header_text(cell: Any, what: str) -> str:
+    """Strips a header cell (column name or unit), which must be text."""
+    if not isinstance(cell, str):
+        raise ValueError(f"Invalid table header: {what} must be text, got {cell!r}")
+    return cell.strip()
 
 
 def _get_destinations_safely_stripped(input_data: Any) -> str:
@@ -134,6 +142,9 @@ def make_table_json_precursor(cells: CellGrid, origin, fixer:ParseFixer) -> Tupl
         table_name = table_name[:-1]
     fixer.table_name = table_name
 
+    if len(cells) < 2:
+        raise ValueError(f"Invalid table {table_name}: no destinations specification found")
+
     # internally hold destinations as json-compatible dict
     destinations = {dest: None for dest in _get_destinations_safely_stripped(cells[1][0]).split(" ")}
     table_is_empty = len(cells) < 3
@@ -153,10 +164,14 @@ def make_table_json_precursor(cells: CellGrid, origin, fixer:ParseFixer) -> Tupl
     if table_is_empty:
         units = []
     elif transposed:
+        if any(len(line) < 2 for line in cells[2 : 2 + n_col]):
+            raise ValueError(f"Invalid table {table_name}: column without unit specification")
         units = [line[1] for line in cells[2 : 2 + n_col]]
     else:
         units = cells[3][:n_col]
-    units = [unit.strip() for unit in units]
+        if len(units) < n_col:
+            raise ValueError(f"Invalid table {table_name}: fewer units than column names")
+    units = [_header_text(unit, "unit") for unit in units]
 
     if transposed and not table_is_empty:
         data_lines = [line[2:] for line in cells[2 : 2 + n_col]]
